@@ -1492,6 +1492,27 @@ def gen_multihash_removal_programs(r):
             ops.append(f"exists s c0 {sri_tok(strong, d)}"); gone = len(ops) - 1
             progs.append(Program(f"mhrm-{strong}-{weak}-{fl}", ops, tags={"expect_reads": expect, "rm": rm, "gone": gone,
                                                                           "variety": ("mhrm", strong, weak, fl)}))
+    # SUPERSEDED versions: the key was overwritten (no removal in between) and then removed fully.  The removal takes
+    # the CURRENT version's content; what the key pointed to earlier - shared with another key, still addressed by
+    # callers - is somebody else's
+    for fl in "sa":
+        for n_old in (1, 2):
+            olds = [b"version %d of the value" % j for j in range(n_old)]
+            cur = b"the current version"
+            ops, expect = [], []
+            for j, o in enumerate(olds):
+                ops.append(w_oneshot(fl, "sha256", b"versioned", o))
+                ops.append(w_oneshot("s", "sha256", b"shares-v%d" % j, o))
+            ops.append(w_oneshot(fl, "sha256", b"versioned", cur))
+            ops.append(f"remove_fully {fl} c0 {hx(b'versioned')}"); rm = len(ops) - 1
+            ops.append(f"read s c0 {hx(b'versioned')}"); expect.append((len(ops) - 1, None))
+            for j, o in enumerate(olds):
+                for of in "sa":
+                    ops.append(f"read {of} c0 {hx(b'shares-v%d' % j)}"); expect.append((len(ops) - 1, o))
+                    ops.append(f"read_hash {of} c0 {sri_tok('sha256', o)}"); expect.append((len(ops) - 1, o))
+            ops.append(f"exists s c0 {sri_tok('sha256', cur)}"); gone = len(ops) - 1
+            progs.append(Program(f"superseded-{n_old}-{fl}", ops, tags={"expect_reads": expect, "rm": rm, "gone": gone,
+                                                                        "variety": ("superseded", n_old, fl)}))
     return progs
 
 
@@ -1509,7 +1530,8 @@ def mon_expect_reads(rr):
                 out.append(Failure("removed_key_still_there", j, "a fully removed key still reads", sig={"op": "read"}))
         elif res[0] != "ok" or unhx(res[1]) != want:
             out.append(Failure("other_entry_affected", j, f"`{rr.prog.ops[j][:40]}` -> {' '.join(res[:2])[:50]} after the full removal of "
-                               "ANOTHER key whose integrity also lists this algorithm", sig={"op": rr.prog.ops[j].split(' ')[0]}))
+                               "ANOTHER key (one whose integrity also lists this algorithm / whose earlier version these bytes were)",
+                               sig={"op": rr.prog.ops[j].split(' ')[0], "variety": t["variety"][0]}))
     if norm(rr.impl[t["gone"]]) != "ok false":
         out.append(Failure("content_not_removed", t["gone"], "the fully removed entry's own content is still there", sig={"op": "exists"}))
     return out
